@@ -142,6 +142,8 @@ class _Finder(importlib.abc.MetaPathFinder, importlib.abc.Loader):
         exec(code, module.__dict__)
         if "np" in module.__dict__:
             module.__dict__["np"] = npx.NPX
+        if "csgraph" in module.__dict__:
+            module.__dict__["csgraph"] = npx.CsgraphProxy(module.__dict__["csgraph"])
         if "softmax" in module.__dict__:
             module.__dict__["__real_softmax__"] = module.__dict__["softmax"]
             module.__dict__["softmax"] = npx.softmax_stub
